@@ -80,6 +80,27 @@ class Interp(_Base):
     def ev_ListComp(self, n, st):
         return self._ev_comp(n, st, True)
 
+    def ev_DictComp(self, n, st):
+        """{k: v for ...} over an unrollable iterable -> a dict literal value"""
+        pair = ast.Tuple(elts=[n.key, n.value], ctx=ast.Load())
+        ast.copy_location(pair, n)
+        proxy = ast.ListComp(elt=pair, generators=n.generators)
+        ast.copy_location(proxy, n)
+        out = []
+        for s, v in self._ev_comp(proxy, st, True):
+            if isinstance(v, Raised) or not isinstance(v, TupleV):
+                out.append((s, v))
+                continue
+            items = []
+            ok = True
+            for it in v.items:
+                if isinstance(it, TupleV) and len(it.items) == 2:
+                    items.append((it.items[0], it.items[1]))
+                else:
+                    ok = False
+            out.append((s, DictV(items) if ok else TopV("dict comprehension")))
+        return out
+
     def ev_GeneratorExp(self, n, st):
         return self._ev_comp(n, st, False)
 
@@ -225,6 +246,39 @@ class Interp(_Base):
             return self.instantiate(st, fv, args, kwargs, node)
         if isinstance(fv, ExtV):
             return self.call_ext(st, fv, args, kwargs, node)
+        if isinstance(fv, RefV):
+            mem = self.find_member(st.heap[fv.oid].cls, "__call__")
+            if mem is not None and mem[0] == "func":
+                bound = FuncV(mem[1], mem[2], bound_self=fv)
+                return [(s, oc[1]) for s, oc in self._call_method(bound, mem[3], args, kwargs, st, node)]
+        if isinstance(fv, PartialV):
+            kw = dict(fv.kwargs)
+            kw.update(kwargs)
+            return self.call(st, fv.fv, list(fv.args) + list(args), kw, node)
+        if isinstance(fv, GetterV) and len(args) == 1 and not kwargs:
+            outs = [(st, [])]
+            for nm in fv.names:
+                nxt = []
+                for s, acc in outs:
+                    base_paths = [(s, args[0])]
+                    for part in nm.split("."):
+                        bp2 = []
+                        for s1, b in base_paths:
+                            if isinstance(b, Raised):
+                                bp2.append((s1, b))
+                            else:
+                                bp2.extend(self.getattr_(s1, b, part, node))
+                        base_paths = bp2
+                    for s1, v in base_paths:
+                        nxt.append((s1, v if isinstance(v, Raised) else acc + [v]))
+                outs = nxt
+            res = []
+            for s, acc in outs:
+                if isinstance(acc, Raised):
+                    res.append((s, acc))
+                else:
+                    res.append((s, acc[0] if len(fv.names) == 1 else TupleV(acc)))
+            return res
         if isinstance(fv, TopV):
             return [(st, self.undecided(st, node, "call of unknown value"))]
         return [(st, self.undecided(st, node, "call of " + fv.kind))]
@@ -280,8 +334,14 @@ class Interp(_Base):
         if fv.bound_self is not None:
             pos = [fv.bound_self] + pos
         defaults = a.defaults
-        if a.kwonlyargs:
-            return [(st, ("ret", self.undecided(st, node, "kw-only parameters")))]
+        for kwa, kwd in zip(a.kwonlyargs, a.kw_defaults):
+            if kwa.arg in kwargs:
+                frame[kwa.arg] = kwargs[kwa.arg]
+            elif kwd is not None:
+                frame[kwa.arg] = self.lift(self._fold_in(fv.mod, kwd))
+            else:
+                return [(st, ("raise", self.raised("arity", "TypeError", node,
+                                                   "missing keyword-only argument " + kwa.arg)))]
         for i, p in enumerate(params):
             if i < len(pos):
                 frame[p] = pos[i]
@@ -299,7 +359,7 @@ class Interp(_Base):
             frame[a.vararg.arg] = TupleV(extra)
         elif extra:
             return [(st, ("raise", self.raised("arity", "TypeError", node, "too many arguments")))]
-        unknown_kw = [k for k in kwargs if k not in params]
+        unknown_kw = [k for k in kwargs if k not in params and k not in [x.arg for x in a.kwonlyargs]]
         if unknown_kw and not a.kwarg:
             return [(st, ("raise", self.raised("arity", "TypeError", node,
                                                "unexpected keyword " + unknown_kw[0])))]
@@ -351,12 +411,49 @@ class Interp(_Base):
         rm = self.model.mod("ctparse.rule")
         w = rm.funcs.get("rule.fwrapper.wrapper")
         if w is None:
-            return [(st, ("ret", self.undecided(st, node, "rule wrapper not found")))]
+            return self._call_registered(st, fv, args, node, rm)
         fparam = rm.func("rule.fwrapper").args.args[0].arg
         inner = FuncV(fv.mod, fv.node, bound_self=None)
         inner._raw = True
         wv = FuncV(rm, w, closure={fparam: _RawFunc(inner)})
         return self.call_func(wv, args, {}, st, node, via_wrapper=False)
+
+    def _call_registered(self, st, fv, args, node, rm):
+        """The decorator does not wrap the production in a closure called 'wrapper': interpret the
+        decorator's inner function on the production to obtain what it registers (any callable:
+        a closure, an instance of a class with __call__), then call that."""
+        fw = rm.funcs.get("rule.fwrapper")
+        if fw is None or len(fw.args.args) != 1:
+            return [(st, ("ret", self.undecided(st, node, "rule wrapper not found")))]
+        inner = FuncV(fv.mod, fv.node, bound_self=None)
+        inner._raw = True
+        # names of rule()'s own frame that the inner function may read: unknown at this point
+        outer = rm.funcs.get("rule")
+        closure = {}
+        if outer is not None:
+            for n_ in ast.walk(outer):
+                if isinstance(n_, ast.Name) and isinstance(n_.ctx, ast.Store):
+                    closure.setdefault(n_.id, TupleV([], is_list=True))
+            for a_ in ast.walk(outer.args):
+                if isinstance(a_, ast.arg):
+                    closure.setdefault(a_.arg, TupleV([]))
+        n_eff = len(st.effects)
+        n_und = len(st.undecided)
+        outs = self.call_func(FuncV(rm, fw, closure=closure), [_RawFunc(inner)], {}, st, node, via_wrapper=False)
+        res = []
+        for s, oc in outs:
+            # registering the rule is import-time work: its effects are not the production's
+            del s.effects[n_eff:]
+            if oc[0] != "ret":
+                res.append((s, ("ret", self.undecided(s, node, "rule decorator raises on the production"))))
+                continue
+            reg = oc[1]
+            if isinstance(reg, (FuncV, RefV, PartialV)):
+                for s2, v in self.call(s, reg, args, {}, node):
+                    res.append((s2, ("raise", v) if isinstance(v, Raised) else ("ret", v)))
+            else:
+                res.append((s, ("ret", self.undecided(s, node, "rule wrapper not found"))))
+        return res
 
     # ------------------------------------------------------------------
     def instantiate(self, st, cv, args, kwargs, node):
@@ -376,6 +473,42 @@ class Interp(_Base):
         ref = RefV(obj.oid)
         mem = self.find_member(cv, "__init__")
         if mem is None or mem[0] != "func":
+            # no constructor in the package: a plain class (no state), a typing.NamedTuple (fields
+            # are the annotated names of the class body, in order), or a class whose construction
+            # lives in a library base the interpreter has no model of
+            ext_bases = [ast.unparse(b) for _m, c in self.class_of(cv) for b in c.bases
+                         if not (isinstance(b, ast.Name) and isinstance(self.model.env(_m.name).get(b.id), e1.ClassRef))]
+            if any(b.split(".")[-1] == "NamedTuple" for b in ext_bases):
+                fields = []
+                defaults = {}
+                for st_ in cv.node.body:
+                    if isinstance(st_, ast.AnnAssign) and isinstance(st_.target, ast.Name):
+                        fields.append(st_.target.id)
+                        if st_.value is not None:
+                            defaults[st_.target.id] = st_.value
+                if len(args) > len(fields) or any(k not in fields for k in kwargs):
+                    return [(st, self.raised("arity", "TypeError", node, "NamedTuple arguments"))]
+                vals = dict(zip(fields, args))
+                vals.update(kwargs)
+                states = [st]
+                for fld in fields:
+                    if fld in vals:
+                        for s_ in states:
+                            s_.heap[obj.oid].attrs[fld] = vals[fld]
+                    elif fld in defaults:
+                        nxt = []
+                        for s_ in states:
+                            for s2, v in self.ev(defaults[fld], s_):
+                                if not isinstance(v, Raised):
+                                    s2.heap[obj.oid].attrs[fld] = v
+                                    nxt.append(s2)
+                        states = nxt
+                    else:
+                        return [(st, self.raised("arity", "TypeError", node, "missing NamedTuple field " + fld))]
+                return [(s_, ref) for s_ in states]
+            if ext_bases and any(b not in ("object", "Generic", "ABC") and not b.startswith("Generic[") for b in ext_bases) \
+                    and (args or kwargs):
+                return [(st, self.undecided(st, node, "construction of a class with library base {}".format(ext_bases[0])))]
             return [(st, ref)]
         fv = FuncV(mem[1], mem[2], bound_self=ref)
         fv_cls = mem[3]
@@ -554,6 +687,21 @@ class Interp(_Base):
             if all(s is not None for s in seqs):
                 return R(TupleV([TupleV(list(t)) for t in zip(*seqs)], is_list=True))
             return R(self.undecided(st, node, "zip"))
+        if name in ("partial", "module:functools.partial") and args:
+            return R(PartialV(args[0], args[1:], kwargs))
+        if name in ("attrgetter", "module:operator.attrgetter") and args and \
+                all(isinstance(a_, StrV) and a_.is_const() for a_ in args):
+            return R(GetterV([a_.const() for a_ in args]))
+        if name in ("update_wrapper", "module:functools.update_wrapper") and args:
+            return R(args[0])
+        opn = name.split(".")[-1] if name.startswith("module:operator.") else name
+        if opn in ("eq", "ne", "lt", "le", "gt", "ge") and len(args) == 2 and \
+                (name.startswith("module:operator.") or name in ("eq", "ne", "lt", "le", "gt", "ge")):
+            cmpop = {"eq": ast.Eq, "ne": ast.NotEq, "lt": ast.Lt, "le": ast.LtE, "gt": ast.Gt, "ge": ast.GtE}[opn]()
+            an = node.args[0] if len(getattr(node, "args", [])) == 2 else None
+            bn = node.args[1] if len(getattr(node, "args", [])) == 2 else None
+            return [(s_, t_ if isinstance(t_, Raised) else BoolV(t_))
+                    for s_, t_ in self.cmp1(st, cmpop, args[0], an, args[1], bn, node)]
         if name == "relativedelta":
             return R(self._mk_rd(st, args, kwargs, node, "relativedelta"))
         if name == "timedelta":
@@ -1313,6 +1461,19 @@ class Interp(_Base):
         return out
 
     def st_With(self, n, st):
+        # contextlib.suppress(E1, E2, ...): the listed exceptions raised in the body end the
+        # block quietly; anything else passes
+        if len(n.items) == 1 and n.items[0].optional_vars is None and isinstance(n.items[0].context_expr, ast.Call) \
+                and e1.callee_name(n.items[0].context_expr.func) == "suppress" \
+                and all(isinstance(a, ast.Name) for a in n.items[0].context_expr.args):
+            names = {a.id for a in n.items[0].context_expr.args}
+            out = []
+            for s, oc in self.exec_block(n.body, st):
+                if oc[0] == "raise" and exc_matches(oc[1].exc, names):
+                    out.append((s, ("next",)))
+                else:
+                    out.append((s, oc))
+            return out
         self.undecided(st, n, "with statement")
         return self.exec_block(n.body, st)
 
